@@ -31,6 +31,39 @@ class Undecided(Exception):
     subset.  Caught per instance; becomes an UNDECIDED obligation."""
 
 
+class _BudgetExceeded(BaseException):
+    pass
+
+
+def with_budget(fn, seconds=None):
+    """Run ``fn()`` under a wall-clock budget; a normal form that swells
+    ends as Undecided for that instance instead of a check that hangs until
+    the global timeout.  Nested use and the global alarm are preserved."""
+    import signal
+    import threading
+    import time
+    if seconds is None:
+        seconds = int(os.environ.get('VERIF_JOB_TIMEOUT', '0') or 0) or 90
+    if threading.current_thread() is not threading.main_thread():
+        return fn()
+
+    def _alarm(signum, frame):
+        raise _BudgetExceeded()
+    old = signal.signal(signal.SIGALRM, _alarm)
+    prev = signal.alarm(seconds)
+    t0 = time.time()
+    try:
+        return fn()
+    except _BudgetExceeded:
+        raise Undecided('the evaluation of this instance exceeded %d s '
+                        '(expression swell)' % seconds)
+    finally:
+        signal.alarm(0)
+        signal.signal(signal.SIGALRM, old)
+        if prev:
+            signal.alarm(max(1, prev - int(time.time() - t0)))
+
+
 class Ctx(object):
     """One run: repository root, tier, seed, parsed-module cache."""
 
